@@ -71,6 +71,8 @@ func C01(ctx *core.Ctx) {
 		return
 	}
 	fullReads(ctx, r, "C01.R15")
+	opIDOnlyOnFresh(ctx, r, "C01.R16", constString(r, "opIDHeader"))
+	registryOnlyAtConstruction(ctx, r, "C01.R17")
 	ctx.Rule("C01.R1", "who-may-access: map writes of the registry's op-id→channel map only in fRegistry.Register/Unregister, lookups only in Register and the delivery function", 5)
 	ctx.Rule("C01.R2", "guarded-by: every access to the registry map (and every use of the loaded map value) happens with the registry mutex held; writes need the exclusive lock", 5)
 	ctx.Rule("C01.R3", "keyed delivery: the delivery function sends the frame parameter on the channel looked up with the op-id parameter; miss ⇒ return without send; Execute passes the op id parsed from the frame's own header; NATS 503 path passes the id from the reply subject", 6)
